@@ -250,10 +250,19 @@ class Gen:
 
     def args(self, n, params, depth, variadic_extra=0, owner=None):
         out = []
-        for i in range(n + variadic_extra):
+        total = n + variadic_extra
+        # sometimes one of the separating commas sits inside [ ] or { }: in C only parentheses protect a
+        # comma, so `F(x[1, 2])` has TWO arguments (seeded change C13-m1: brackets counted as nesting)
+        wrap = self.r.randrange(1, total) if (total >= 2 and self.r.random() < 0.12) else None
+        brk = self.r.choice([("[", "]"), ("{", "}")])
+        for i in range(total):
             if i:
                 out.append(",")
+            if wrap is not None and i == wrap - 1:
+                out += [self.r.choice(PLAIN), brk[0]]
             out += self.arg(params, depth, owner)
+            if wrap is not None and i == wrap:
+                out.append(brk[1])
         return out
 
     def arg(self, params, depth, owner=None):
